@@ -6,7 +6,7 @@
    3. hence an evaluateAll over a duplicate-free registry after which every registered property has the value it had before has
       called no observer at all, and in any case no unregistered property changed. *)
 From KDB Require Import Util UtilProofs PropDefs PropFlags PropLink PropLinkBasics PropLinkOps PropLinkTheorems PropSim PropSimLazy PropGrowLazy.
-From KDB Require PropAbs PropAbsProofs PropAbsLazy PropProofs PropCheck PropMove PropMoveLazy PropMixed.
+From KDB Require PropAbs PropAbsProofs PropAbsLazy PropProofs PropCheck PropMove PropMoveLazy PropMixed PropReg PropTgt.
 Module L := PropAbsLazy.
 Module A := PropAbs.
 
@@ -405,6 +405,37 @@ Section Notify.
           apply G. intros e Hi. apply in_rev in Hi. apply in_map_iff in Hi. destruct Hi as (a & <- & _). apply Hg. }
         rewrite !Fa by (intros; reflexivity). reflexivity.
       - unfold values. rewrite Hst. reflexivity.
+    Qed.
+
+    (* ---- 6. ... with no premise left for the networks of PropMoveLazy.grow_op_lazy3 (no user-held bindings there: every registered
+       binding updates a property, PropTgt.v) ---- *)
+    Lemma lazy3_alltgt f : forall ops w, PropTgt.ALLTGT w -> PropMoveLazy.lazy_run3_ok fn rtl f w ops ->
+      PropTgt.ALLTGT (fold_left (step fn rtl (S f)) ops w).
+    Proof.
+      induction ops as [|o r IH]; intros w HA Hok; cbn [fold_left]; [exact HA|]. destruct Hok as (Ho & Hs & Hr). apply IH; [|exact Hr].
+      unfold step. destruct (step1 fn rtl (S f) w o) as [w' res] eqn:H1. cbn [snd] in Hs. subst res.
+      assert (HA' : PropTgt.ALLTGT w').
+      { apply (PropTgt.step1_alltgt fn rtl (S f) w o w'); [|exact HA|exact H1]. destruct o; try exact I. exact Ho. }
+      intros b (x & Hx & Ht). apply (HA' b). exists x. split; [exact Hx|exact Ht].
+    Qed.
+
+    Theorem lazy3_reachable_second_evalall_identity f ops e w1 :
+      PropMoveLazy.lazy_run3_ok fn rtl f world0 ops ->
+      let w := run fn rtl (S f) ops in
+      lookup (w_bevs w) e = Some ev ->
+      step1 fn rtl (S f) w (BevEvalAll e) = (w1, None) ->
+      step1 fn rtl (S f) w1 (BevEvalAll e) = (w1, None).
+    Proof.
+      intros Hok w He H.
+      destruct (PropMoveLazy.lazy_grow3_coherent fn rtl ev ev_pos f ops world0 (PropGrowLazy.LSC_world0 ev ev_pos) (PropGrowLazy.LSND_world0 fn) (PropGrowLazy.LREG_world0 ev ev_pos) (PropMove.NOEMIT_world0) Hok) as (HSC & HS & HR).
+      change (LSC w) in HSC. change (PropGrowLazy.LSND fn w) in HS. change (PropGrowLazy.LREG ev w) in HR.
+      assert (HA : PropTgt.ALLTGT w).
+      { apply (lazy3_alltgt f ops world0); [|exact Hok]. intros b (x & Hx & _). unfold get_bind, world0 in Hx. cbn in Hx. destruct b; discriminate Hx. }
+      pose proof (PropReg.reachable_REGI fn rtl (S f) ops) as HRG. change (PropReg.REGI w) in HRG.
+      destruct (nth_error (w_evps w) ev) as [st|] eqn:Hst; [|cbn [step1] in H; rewrite He, Hst in H; discriminate H].
+      unfold PropGrowLazy.LREG in HR. rewrite Hst in HR. destruct HR as (ND & HC & _).
+      apply (lazy_second_evalall_identity f w e st w1 HSC (PropGrowLazy.LCOH_of_LSND fn ev ev_pos w (proj1 HSC) HS) He Hst ND HC); [|exact H].
+      intros rb Hi. destruct (PropTgt.registered_has_target w HRG HA ev st rb Hst Hi) as (x & q & Hx & Ht). unfold lz. rewrite Hx, Ht. discriminate.
     Qed.
 
     (* ... in every world reached by a history of PropMoveLazy.grow_op_lazy3 operations no premise is left *)
